@@ -110,6 +110,43 @@ def infeasible_starts(ctx):
         if calls:
             bad.append((case, "target called"))
         n += 1
+    # edge stream: the start within a fraction of a (coarse) search-mesh step of a HARD bound that is not a mesh node, so that snapping
+    # leaves the box and the point is pulled back one step; feasible sets that hug the bound (thin slab / ring).  Accepted ==> the point
+    # the optimiser will evaluate first is feasible.
+    for i in range(60 if ctx.quick else 600):
+        D = rng.choice([1, 2, 2, 3])
+        hb = rng.choice([1.1, 1.07, 1.3, 2.05])
+        sgn = rng.choice([2, 3, 4])
+        side = rng.choice([1.0, -1.0])
+        x0 = np.array([rng.uniform(-0.3, 0.3) for _ in range(D)])
+        x0[0] = side * (hb - rng.choice([0.002, 0.01, 0.03, 0.06]) * hb)
+        w = rng.choice([0.02, 0.05, 0.08, 0.12])
+        shape = rng.choice(["slab", "ring"]) if D > 1 else "slab"
+        if shape == "slab":        # feasible: within w of the bound on the start's side
+            raw = (lambda sd, hb_, w_: (lambda X: (hb_ - w_) - sd * np.atleast_2d(X)[:, 0]))(side, hb, w)
+        else:                      # feasible: a ring through the start
+            r0 = float(np.linalg.norm(x0))
+            raw = (lambda r_, w_: (lambda X: np.abs(np.linalg.norm(np.atleast_2d(X), axis=1) - r_) - w_))(r0, w)
+        calls = []
+        fun = lambda x: calls.append(1) or float(np.sum(x ** 2))  # noqa: E731
+        infeasible = bool(np.atleast_1d(raw(x0))[0] > 0)
+        case = dict(D=D, x0=x0.tolist(), hard=hb, search_grid_number=sgn, shape=shape, width=w, stream="edge")
+        try:
+            b = BADS(fun, x0.copy(), np.full(D, -hb), np.full(D, hb), np.full(D, -1.0), np.full(D, 1.0), non_box_cons=raw,
+                     options=dict(display="off", search_grid_number=sgn))
+            if infeasible:
+                bad.append((case, "infeasible x0 accepted"))
+            else:
+                xs = b.var_transf.inverse_transf(np.atleast_2d(b.u))
+                if np.atleast_1d(raw(xs))[0] > 0:
+                    bad.append((case, "accepted but the mesh-snapped start %r is infeasible" % (xs.tolist(),)))
+        except ValueError:
+            pass
+        except Exception as ex:
+            bad.append((case, type(ex).__name__))
+        if calls:
+            bad.append((case, "target called"))
+        n += 1
     logging.disable(logging.NOTSET)
     return n, bad[:5]
 
